@@ -3,7 +3,7 @@ From Coq Require Import List ZArith NArith Bool Lia.
 From EDS Require Import Model.Objects Model.Fitness Model.PodSpec Model.Backoff Model.Filter Model.Default Model.Limits
      Model.Rolling Model.Canary Model.ErsReconcile Model.EdsLogic Model.EdsReconcile Model.Spec
      Proofs.Lists Proofs.CondProofs Proofs.RollingProofs Proofs.SyncInv Proofs.CanaryProofs Proofs.C08Proofs
-     Proofs.C01Proofs Proofs.EdsInv.
+     Proofs.C01Proofs Proofs.EdsInv Proofs.C05Proofs.
 Import ListNotations.
 Open Scope Z_scope.
 
@@ -88,6 +88,46 @@ Proof.
         intros F; discriminate.
       * repeat split; try reflexivity; try assumption.
         intros _ _. destruct Hcan as [Hc | F]; [rewrite Hc; reflexivity | discriminate].
+Qed.
+
+(** C14, the conditions clause: a Canary-Paused condition that is True names the reason the canary is paused for *)
+Lemma update_cond_true_reason : forall cs now t r m w s,
+  exists c, get_cond (update_cond cs now t CTrue r m w s) t = Some c /\ c_status c = CTrue /\ c_reason c = r.
+Proof.
+  intros cs now t r m w s. unfold update_cond. destruct (get_cond cs t) as [c0|] eqn:E.
+  - eexists. split; [apply get_update_first; [exact E|reflexivity]|]. cbn. split; reflexivity.
+  - cbn [cstatus_eqb orb]. eexists. split; [apply get_cond_app_none; [exact E|reflexivity]|]. split; reflexivity.
+Qed.
+
+Theorem paused_condition_reason : forall sn pl st',
+  eds_sync sn = Ok pl -> In st' (statuses_of (ep_writes pl)) ->
+  exists e uptodate current,
+    es_obj sn = Some e /\
+    let rss := rs_of_eds e (es_rss sn) in
+    last_such (rs_up_to_date e) rss = Some uptodate /\
+    current = fst (select_current (e_annots e) (st_canary (e_strategy e))
+                     (last_such (fun r => N.eqb (r_name r) (es_active (e_status e))) rss) uptodate (es_now sn)) /\
+    let f := facts_of (e_annots e) (st_canary (e_strategy e)) current uptodate in
+    (sf_canary_strategy f = true -> spec_cond_paused f = true ->
+     exists c, get_cond (es_conds st') ECT_CanaryPaused = Some c /\ c_status c = CTrue /\ c_reason c = sf_reason f).
+Proof.
+  intros sn pl st' H Hin.
+  destruct (written_status_is_result _ _ _ H Hin) as [e [uptodate [current [rq [Ho [Hd [Hu [Hs [h [ann' [ws Hres]]]]]]]]]]].
+  exists e, uptodate, current. split; [assumption|]. split; [assumption|]. split; [rewrite Hs; reflexivity|].
+  inversion Hres as [Hnc | cspec st'' ann'' ws' Hcs pr failed active st1 st2 st3 Hact Hinact]; subst.
+  - unfold facts_of. rewrite Hnc. cbn. discriminate.
+  - unfold facts_of. rewrite Hcs. fold pr failed active. cbn [sf_canary_strategy sf_reason].
+    unfold spec_cond_paused. cbn [sf_paused sf_failed]. intros _ Hp.
+    assert (Hsame : same_but_nodes st' st3).
+    { destruct active eqn:Ea.
+      - destruct (Hact eq_refl) as [_ [_ [rep [nb [_ [_ [[_ ->] | [_ [sel [en [_ ->]]]]]]]]]]]; [apply same_refl | apply with_canary_nodes_same].
+      - destruct (Hinact eq_refl) as [-> _]. apply same_refl. }
+    destruct Hsame as [S1 [S2 [S3 [S4 [S5 [S6 [S7 [S8 [S9 S10]]]]]]]]].
+    rewrite S10.
+    assert (E3 : es_conds st3 = es_conds st2).
+    { unfold st3, manage_status. destruct failed; [reflexivity|]. destruct active; reflexivity. }
+    rewrite E3. unfold st2, with_eds_conds. cbn [es_conds]. unfold canary_conditions.
+    rewrite Hp. apply update_cond_true_reason.
 Qed.
 
 (** ** replica-set counters *)
